@@ -97,12 +97,13 @@ class UDPListener:
         self.running = True
         while self.running and self.is_enabled:
             try:
-                msg, addr = self.sock.recvfrom(1024)
+                # room for the largest possible datagram: a truncated one can not be judged
+                msg, addr = self.sock.recvfrom(2**16)
             except socket.error:
                 return
             try:
                 request = json.loads(msg.decode('utf-8'))
-            except ValueError:  # invalid utf-8 or invalid JSON
+            except (ValueError, RecursionError):  # invalid utf-8, invalid JSON or nested too deep
                 continue
             if not isinstance(request, dict) or request.get('SECoP') != 'discover':
                 continue
